@@ -97,7 +97,9 @@ def commands():
             'LIST "" ("a" "p/%" "nosuch")', 'LIST "" "*" RETURN (SPECIAL-USE SUBSCRIBED)', 'LIST (REMOTE) "" "%"', 'LIST "" "%" RETURN (STATUS (UIDVALIDITY RECENT))',
             "FETCH 1 (BODY[2.MIME] BODY[1.HEADER.FIELDS (TO)] BODY[TEXT]<0.5>)", "FETCH 1:* (UID RFC822.SIZE INTERNALDATE ENVELOPE BODYSTRUCTURE)",
             "SEARCH CHARSET UTF-8 TEXT x", "SEARCH CHARSET bogus ALL", "SEARCH OR (NOT ALL) (LARGER 1 SMALLER 99999) UID 1:*", "STARTTLS", "ENABLE CONDSTORE",
-            "STORE 1 +FLAGS.SILENT (a b c d e f g h)", "UID STORE 1:* -FLAGS (\\Deleted)"]
+            "STORE 1 +FLAGS.SILENT (a b c d e f g h)", "UID STORE 1:* -FLAGS (\\Deleted)",
+            # keywords an MH folder cannot hold, system flags in another case
+            "STORE 1 +FLAGS (a:b)", "STORE 1:* FLAGS (k\xe9)", "UID STORE 1 -FLAGS (\\seen \\DELETED x:y)", ("APPEND", "INBOX", "kw a:b"), ("APPEND", "e", "k\xe9")]
     return out
 
 
@@ -124,7 +126,7 @@ def work(unit):
             s.on_resp = None
             w = st.w
             if isinstance(cmd, tuple):
-                text = f"APPEND {cmd[1]} () ".encode() + imap_literal(msgs.make("c6"))
+                text = f"APPEND {cmd[1]} ({cmd[2] if len(cmd) > 2 else ''}) ".encode("latin-1") + imap_literal(msgs.make("c6"))
             else:
                 text = cmd
             det = {"setup": setup, "cmd": shape(cmd)}
